@@ -881,10 +881,21 @@ func (f *Frame) binop(i *ssa.BinOp, reach string, h *Heap) Val {
 		}
 	}
 	switch i.Op {
-	case token.EQL:
-		return bv(eq(x.E, y.E))
-	case token.NEQ:
-		return bv(not(eq(x.E, y.E)))
+	case token.EQL, token.NEQ:
+		e := eq(x.E, y.E)
+		if x.S == "Ptr" && y.E == nilPtr {
+			e = eq(pref(x.E), "0")
+		} else if y.S == "Ptr" && x.E == nilPtr {
+			e = eq(pref(y.E), "0")
+		} else if x.S == "Slice" && y.E == nilSlice {
+			e = eq(sref(x.E), "0")
+		} else if y.S == "Slice" && x.E == nilSlice {
+			e = eq(sref(y.E), "0")
+		}
+		if i.Op == token.NEQ {
+			e = not(e)
+		}
+		return bv(e)
 	}
 	if x.S == "Bool" {
 		switch i.Op {
@@ -989,7 +1000,9 @@ func (f *Frame) typeAssert(i *ssa.TypeAssert, x Val, reach string, h *Heap) Val 
 func (f *Frame) implementsTerm(x string, it *types.Interface) string {
 	u := f.en.u
 	var ds []string
-	for _, k := range u.boxedOrd {
+	bk := append([]string{}, u.boxedOrd...)
+	sort.Strings(bk)
+	for _, k := range bk {
 		t := u.boxed[k]
 		if types.Implements(t, it) {
 			ds = append(ds, app("(_ is "+u.boxName(t)+")", x))
